@@ -695,7 +695,12 @@ func (fr *Frame) checkInvariants(li *loopInfo, cond string, st *State, kind stri
 	}
 	for i, c := range li.spec.Invariants {
 		env := fr.specEnvAt(st, li)
-		g := env.compileBool(c.Expr)
+		ex := c.Expr
+		if kind == "inv-preserved" && li.idxPhi != nil {
+			// equivalent goal in which the element of the iteration just executed is a ground term
+			ex = spec.SplitLastIteration(ex)
+		}
+		g := env.compileBool(ex)
 		label := c.Label
 		if label == "" {
 			label = fmt.Sprint(i + 1)
@@ -1110,7 +1115,7 @@ func (fr *Frame) callWrites(c *ssa.CallCommon, env map[ssa.Value]Val, fv map[*ss
 			}
 			return
 		}
-		if sp.Effect {
+		if sp.Effect || (!sp.Pure && vc.W.MayEffect(callee)) {
 			markTrace()
 		}
 		// only what `modifies` names: map the root identifier of each modifies expr to an argument
@@ -1133,6 +1138,9 @@ func (fr *Frame) callWrites(c *ssa.CallCommon, env map[ssa.Value]Val, fv map[*ss
 		return
 	}
 	// unknown callee: pointer arguments may be written
+	if vc.W.MayEffect(callee) {
+		markTrace()
+	}
 	for _, a := range c.Args {
 		if _, isPtr := a.Type().Underlying().(*types.Pointer); isPtr {
 			mark(a)
